@@ -1,6 +1,7 @@
-import Clover.Props.C16
-import Clover.Props.C18
-import Clover.Props.C10
+import Clover.Model.Criteria
+import Clover.Model.GoVal
+import Clover.Proofs.Paths
+import Clover.Proofs.GoCmp
 /-! # C16, last sentence — a literal yields the same result whatever Go numeric type it was supplied as
 
 `normalize` (C18 `widths_canonical`) turns a Go integer into `.num (.int i)`, an unsigned one into
